@@ -55,7 +55,8 @@ func loadAll(repo string) (*World, *Contracts) {
 	// every library implementation really writes no pre-existing memory
 	w.PureIface = func(c *ssa.CallCommon) bool {
 		ct := cs.IfaceFor(ifaceKey(c))
-		return ct != nil && ct.Pure
+		// `pure` (checked of every implementation in the module) or an explicitly empty, trusted frame (an assumption)
+		return ct != nil && (ct.Pure || (ct.HasAssigns && len(ct.Assigns) == 0 && ct.Trusted != ""))
 	}
 	w.PureSig = func(c *ssa.CallCommon) bool {
 		if c.IsInvoke() {
